@@ -19,8 +19,8 @@ class FmtCheck(Check):
     level_note = ("trusted: TLC/SANY, Json module, executor recording code, ASan/UBSan (format strings are exact-size heap copies), glibc "
                   "snprintf/strto* where the statement names the C library as the reference; bounded: token strings up to the stated "
                   "length, sampled field combinations, boundary and random values")
-    assumptions = ["numbers of 10..19 digits inside a format specifier are outside the modelled domain (the generators avoid them); "
-                   "<= 9 digits are exact and >= 20 digits model strtol saturation",
+    assumptions = ["numerals inside a format specifier are modelled as static_cast<int>(strtol(...)): exact for every length, incl. the "
+                   "2^31/2^32 wrap-arounds and saturation at LONG_MAX/LONG_MIN; widths that narrow to more than 2000 are not generated",
                    "char8_t arguments with the character class are exercised for ASCII values only",
                    "a char16_t output stream cannot carry the unit 0xFFFF (eof of its traits): such outputs are not compared"]
 
@@ -64,6 +64,7 @@ class C10(FmtCheck):
         e = vlib.build("exec_format")
         q = tier == "quick"
         J = sharded("c10-tokens", e, ["--gen", "tokens", "--tokens", TOKENS, "--maxlen", "4" if q else "5"] + ([] if q else ["--heavy"]), 12 if q else 64)
+        J += sharded("c10-numfields", e, ["--gen", "numfields"], 2)
         J += sharded("c10-rand", e, ["--gen", "randbytes", "--count", "20000" if q else "400000", "--seed", str(seed)], 4 if q else 32)
         return J
 
@@ -85,6 +86,7 @@ class C11(FmtCheck):
         e = vlib.build("exec_format")
         q = tier == "quick"
         J = sharded("c11-layouts", e, ["--gen", "layouts"], 8 if q else 16)
+        J += sharded("c11-numfields", e, ["--gen", "numfields"], 2)
         J += sharded("c11-fields", e, ["--gen", "fields", "--count", "30000" if q else "600000", "--seed", str(seed)], 8 if q else 48)
         return J
 
